@@ -96,10 +96,11 @@ def run_family(binary, work, items, jobs=None, batch=6, meaning_needed=True, log
             # process died: panic / fatal error
             tail = (r['stderr'] or '')[-1500:]
             kind = 'process-crashed'
-            if 'panic:' in tail or 'fatal error:' in tail or 'goroutine ' in tail:
-                findings.append(Finding(prop='C07', rule='process-crashed-during-run', detail=first_panic_line(tail), item=i, where=r['dir']))
+            full = r['stderr'] or ''
+            if engine_panic(full):
+                findings.append(Finding(prop='C07', rule='process-crashed-during-run', detail=first_panic_line(full), item=i, where=r['dir']))
             else:
-                inconclusive.append('harness exit %s for %s: %s' % (r['code'], r['name'], tail[-300:]))
+                inconclusive.append('harness exit %s for %s (not an engine panic): %s' % (r['code'], r['name'], tail[-600:]))
             continue
         if res.get('prepare_err'):
             findings.append(Finding(prop='GEN', rule='generated-workflow-rejected', detail=res['prepare_err'][:200], item=i, where=r['dir']))
@@ -138,6 +139,19 @@ def run_family(binary, work, items, jobs=None, batch=6, meaning_needed=True, log
     stats['wall'] = time.time() - t0
     stats['inconclusive'] = inconclusive
     return findings, stats
+
+
+def engine_panic(txt):
+    """a Go panic / fatal error whose panicking goroutine runs engine code (not the harness' in-process plugin)"""
+    m = re.search(r'^(panic:|fatal error:)', txt, re.M)
+    if not m:
+        return False
+    rest = txt[m.start():]
+    g = re.search(r'\ngoroutine \d+ \[[^\]]*\]:\n', rest)
+    if not g:
+        return 'go.flow.arcalot.io/engine/' in rest
+    stack = rest[g.end():].split('\n\n')[0]
+    return 'go.flow.arcalot.io/engine/' in stack
 
 
 def first_panic_line(txt):
